@@ -23,7 +23,7 @@ RULE = ('cases: seeded worlds (SpaceWorld continuous, DiscreteWorld/GridWorld/Li
         'max(leeway, axis leeway) (seam-aware distance on positive-extent axes of wrapping worlds), in joining order. Non-trivial '
         'query: >=1 agent exactly on a face and the answer is neither empty nor everybody; distinct by (world, population, query).')
 ASSUMPTIONS = ['coordinates and leeways are multiples of 1/8 (exact float arithmetic)', 'F5 (wrap seam ignored) is a known finding, not repaired']
-FLOORS = {'quick': {'queries_with_an_unbounded_integer_leeway': 243, 'cases_in_mode_debuglog': 209, 'moves_refused_for_a_wrong_typed_coordinate': 1009, 'answers_edited_by_the_caller': 3308, 'namesakes_in_another_world': 3222, 'queries_with_numpy_scalars': 1226, 'queries': 12000, 'queries_nonwrap': 6090, 'queries_wrap': 6070, 'on_face_agents': 5000, 'nonempty_answers': 4811,
+FLOORS = {'quick': {'worlds_queried_after_their_model_completed': 190, 'agents_carried_beyond_an_edge_by_a_direct_write': 530, 'positions_written_directly': 1557, 'queries_with_an_unbounded_integer_leeway': 243, 'cases_in_mode_debuglog': 209, 'moves_refused_for_a_wrong_typed_coordinate': 1009, 'answers_edited_by_the_caller': 3308, 'namesakes_in_another_world': 3222, 'queries_with_numpy_scalars': 1226, 'queries': 12000, 'queries_nonwrap': 6090, 'queries_wrap': 6070, 'on_face_agents': 5000, 'nonempty_answers': 4795,
                     'empty_answers': 2000, 'negative_leeway_queries': 981, 'axis_leeway_larger': 3000, 'general_leeway_larger': 3000,
                     'query_outside_world': 2000, 'coincident_pairs': 500, 'big_worlds': 8, 'big_queries': 150, 'agents_with_position_subclass_component': 1000, 'second_world_on_same_model': 300, 'reach:Environments.SpaceWorld.get_agents_at': 12000},
           'thorough': {'queries': 1000000, 'on_face_agents': 400000}}
@@ -114,7 +114,11 @@ def case_world(ctx, case):
     twin_env = envs.SpaceWorld(twin_model, 60.0, 60.0, 60.0)
     twin_model.environment = twin_env
     namesakes = {}
+    complete_at = rng.randrange(10) if rng.random() < 0.25 else None
     for qn in range(10):
+        if qn == complete_at:
+            model.complete()          # queries on the world of a finished model (post-run reporting) are queries like any other
+            ctx.count('worlds_queried_after_their_model_completed')
         for a in pool:
             x = rng.random()
             if a.id not in namesakes and x < 0.3:
@@ -134,6 +138,15 @@ def case_world(ctx, case):
                 order.append(a)
             elif a in order and x < 0.2:
                 env.move(a, *[rng.randint(-3, 3) if grid else rng.randint(-24, 24) / 8 for _ in range(3)])
+            elif a in order and 0.26 <= x < 0.32:
+                # the documented manual alternative to move(): the position component is written directly ('doesn't do any bound checking',
+                # advanced tutorial) - the agent may end up a little beyond an edge; a query answers by the positions the agents HAVE
+                p_ = a.components[P]
+                for attr_ in rng.sample(['x', 'y', 'z'], rng.randint(1, 3)):
+                    setattr(p_, attr_, getattr(p_, attr_) + (rng.randint(-2, 2) if grid else rng.randint(-16, 16) / 8))
+                ctx.count('positions_written_directly')
+                if any(ext[k] and ext[k] > 0 and not (0 <= p_.xyz()[k] <= (ext[k] - 1 if grid else ext[k])) for k in range(3)):
+                    ctx.count('agents_carried_beyond_an_edge_by_a_direct_write')
             elif a in order and x < 0.26 and sum(1 for e in ext if e and e > 0) >= 2:
                 # an absolute move that the world refuses because a LATER coordinate has the wrong type: the agent stays where it is
                 from vlib import faults
@@ -181,7 +194,11 @@ def case_world(ctx, case):
                 env.move_to(a, *tgt)
         if len(order) >= 2 and rng.random() < 0.2:
             b, c = rng.sample(order, 2)
-            env.move_to(c, *b.components[P].xyz())
+            bx = b.components[P].xyz()
+            if all(not (ext[k] and ext[k] > 0) or 0 <= bx[k] <= (ext[k] - 1 if grid else ext[k]) for k in range(3)):
+                env.move_to(c, *bx)
+            else:       # b was carried beyond an edge by a direct write: c joins it the same way
+                c.components[P].x, c.components[P].y, c.components[P].z = bx
             ctx.count('coincident_pairs')
         # the call, with varying argument styles
         style = rng.random()
